@@ -163,9 +163,19 @@ class XorEncodedFile(io.RawIOBase):
         return self.fh.tell() - (self.nonce_offset + 8)
 
     def seek(self, offset, whence=io.SEEK_SET):
+        base = self.nonce_offset + 8
         if whence == io.SEEK_SET:
-            return self.fh.seek(offset + self.nonce_offset + 8, whence)
-        return self.fh.seek(offset, whence)
+            if offset < 0:
+                raise ValueError(f"negative seek value {offset}")
+            target = offset
+        elif whence == io.SEEK_CUR:
+            target = self.tell() + offset
+        elif whence == io.SEEK_END:
+            target = self.fh.seek(0, io.SEEK_END) - base + offset
+        else:
+            raise ValueError(f"invalid whence ({whence}, should be 0, 1 or 2)")
+        # never move before the start of the decoded bytes: clamp like io.BytesIO does
+        return self.fh.seek(max(target, 0) + base)
 
     def read(self, n=-1):
         if n is None or n < 0:
